@@ -57,4 +57,14 @@ CLAIMS["C17"] = {
     "technique": "role/dataflow agreement of table columns + symbolic normal forms of byte arithmetic vs. the format's layout formula (AST)",
 }
 
+CLAIMS["C12"] = {
+    "text": "Decides on the CFGs of GenomeContext.iter_chromosomes, left_join and SynchedStream.__iter__ that every (name, group) pulled from the grouped data reaches a yield of that group, "
+            "a raise, or a branch proving the slot holds its default before it is overwritten or the generator ends; that the walk over the genome order has no early exit and yields exactly "
+            "one buffer per contig (group only on a name match, empty table otherwise; trailing contigs emitted to the end of the order); that order-discrepancy and unknown-name raises exist and "
+            "test membership in the collection that records ALL visited contigs; that groups are skipped only under the ignored-set test; that the genome context's sets are written only in "
+            "its constructor; and that the walked order equals the contigs that have sizes. Silent dropping is a path property of these generators, so a path analysis is the right level.",
+    "note": _NOTE + "Not decided: the contiguity precondition of the input, the group-by fast path, equality of per-contig results.",
+    "technique": "CFG pending-slot discharge paths + branch-fact dominance + immutability (who-may-write) check (AST)",
+}
+
 NOT_APPLICABLE = {}
